@@ -380,4 +380,31 @@ def atom (P : Params) (s : St) (i : Nat) : Option (St × Ev × List String) :=
     let nw := old ^^^ C.kXMask
     some (setAgent (wr s0 N nw) i { a with loc := .held .SIX }, mkEv .fxor N (P.ord "dng.handoff") old nw, [])
 
+/-! ### top-level transition system (what the theorems quantify over) -/
+
+inductive Act where
+  /-- API entry of LockS / LockSIX / LockX by thread `tid` on lock `lk` -/
+  | spawn (tid lk : Nat) (m : Mode)
+  /-- one atomic operation of request `i` -/
+  | atom (i : Nat)
+  /-- the guard of request `i` is destroyed / overwritten by thread `tid` -/
+  | release (i tid : Nat)
+  | upgrade (i tid : Nat)
+  | downgrade (i tid : Nat)
+  /-- thread exit: the thread-local spare node is deleted -/
+  | exit (tid : Nat)
+  deriving Repr, DecidableEq
+
+def step (P : Params) (s : St) : Act → St
+  | .spawn tid lk m => (spawnLock s tid lk m).1
+  | .atom i => match atom P s i with
+    | some (s', _, _) => s'
+    | none => s
+  | .release i tid => beginRelease s i tid
+  | .upgrade i tid => beginUpgrade s i tid
+  | .downgrade i tid => beginDowngrade s i tid
+  | .exit tid => (threadExit s tid).1
+
+def run (P : Params) (s : St) (acts : List Act) : St := acts.foldl (step P) s
+
 end CppUtil.Mcs
